@@ -415,6 +415,16 @@ impl<'a, P: SimPrefix, T: WVal> Sess<'a, P, T> {
         chk!(ctx, "C13", ents == e, "peek:entries", "read-only look at mutable view {p} while references are held: sees {:?}, expected {:?}", ents, e);
         let here = if own { self.exp.get(&p).map(|x| x.1) } else { None };
         chk!(ctx, "C13", val == here, "peek:value", "view {p}.value() = {:?}, expected {:?}", val, here);
+        // a read-only view derived from the mutable view never reaches beyond it, whatever is searched
+        if ctx.is("C14") {
+            for q in [Key::ZERO, region.parent().unwrap_or(Key::ZERO), region.truncate(region.len / 2)] {
+                let got = ctx.obs("C14", "readonly find", || v.view().find(P::make(q.raw())).map(|x| view_ents(&x, cap)))?;
+                if let Some(g) = got {
+                    let exp: Vec<Ent> = e.iter().filter(|x| q.covers(x.key)).cloned().collect();
+                    chk!(ctx, "C14", g == exp, "escape:readonly-find", "read-only view of mutable view {p}: find({q}) addresses {:?}, but the mutable view only owns {:?}", g, e);
+                }
+            }
+        }
         Ok(())
     }
 }
